@@ -194,12 +194,13 @@ async fn one_round(ctx: &Ctx, out: &mut Outcome, rng: &mut Rng, idx: u64, root: 
     let by_bytes = !resend && rng.chance(1, 4);
     let cfg = IngesterConfig {
         flush_interval: Duration::from_millis(*rng.pick(&[5u64, 20, 10_000])),
-        flush_row_count: if by_bytes { 1_000_000 } else if resend { 2 + rng.usize(4) } else { 2 + rng.usize(40) },
-        flush_size_bytes: if by_bytes { 2_000 + rng.usize(20_000) } else { 1 << 30 },
+        // (now and then the degenerate thresholds: 0 / 1 rows, 0 bytes - every write is a flush)
+        flush_row_count: if by_bytes { 1_000_000 } else if resend { 2 + rng.usize(4) } else if rng.chance(1, 10) { rng.usize(2) } else { 2 + rng.usize(40) },
+        flush_size_bytes: if by_bytes { if rng.chance(1, 8) { 0 } else { 2_000 + rng.usize(20_000) } } else { 1 << 30 },
         batch_timeout: Duration::from_millis(5),
         batch_size_bytes: 1 << 20,
         flush_parallelism: 2,
-        max_buffer_size_bytes: if tiny_buffer { 1_500 + rng.usize(6_000) } else { 1 << 30 },
+        max_buffer_size_bytes: if tiny_buffer { if rng.chance(1, 6) { 0 } else { 1_500 + rng.usize(6_000) } } else { 1 << 30 },
         wal: WalConfig { wal_dir: PathBuf::from(&wal_dir), max_segment_size: 1 << 16, sync_mode: WalSyncMode::None, enabled: wal_on },
     };
     let cfg_flush_rows = cfg.flush_row_count;
